@@ -506,7 +506,7 @@ theorem spec_holds_with {rows : List (String × Int)} (htab : TableOK rows) {g :
   have hout : addImplicitHydrogensWith rows g = extend g new := hfold
   refine ⟨new, hout, hok, ?_⟩
   rw [hout]
-  refine ⟨rfl, rfl, rfl, hok.distinct, hok.fresh, ?_, ?_⟩
+  refine ⟨rfl, rfl, rfl, hok.distinct, fun p hp hin => by have := hok.fresh p hp p.1 hin; omega, ?_, ?_⟩
   · intro p hp
     refine ⟨hok.parent p hp, ?_⟩
     rcases hpar p hp with h | ⟨t, ht, hpt, hadd⟩
@@ -699,6 +699,15 @@ theorem fresh_ids {g : Graph} (hg : WF g) :
     obtain ⟨p, hp, rfl⟩ := List.mem_map.1 hx
     exact hok.fresh p hp
 
+/-- the stronger fact about the MODEL (not demanded by the statement, hence not a clause of `Spec`; review 3, M6):
+    the pairs `new` by which the model extends the input carry ids above every id of the input (the code takes
+    `max(graph.nodes) + 1`) -/
+theorem new_ids_above {g : Graph} (hg : WF g) :
+    ∃ new, addImplicitHydrogens g = extend g new ∧ SpecWith g (addImplicitHydrogens g) new ∧
+      ∀ p ∈ new, ∀ n ∈ g.nodeIds, n < p.1 := by
+  obtain ⟨new, h, hok, hs⟩ := spec_holds_with valence_table_main_group hg
+  exact ⟨new, h, hs, hok.fresh⟩
+
 /-- **count**: an old atom gains exactly `expected g a` neighbours, i.e.
     `max 0 (trunc ((2·bonds(v) − Σ doubled orders)/2))` for a tabulated non-`H` non-`R` symbol with `v`
     reference valence electrons, and none otherwise -/
@@ -839,6 +848,13 @@ example : specCheck exCO (addImplicitHydrogens exCO) = true := by decide
 example : specCheck exCO
     { nodes := [(1, { symbol := some "C" }), (2, { symbol := some "H" }), (3, { symbol := some "H" })],
       adj := [(1, [(2, [(0, .s 2)]), (3, [(0, .s 2)])]), (2, [(1, [(0, .s 2)])]), (3, [(1, [(0, .s 2)])])] } = false := by
+  decide
+/-- the statement says "an id not previously in use", not "an id above all old ids": a completion of methanol
+    (ids 1, 2) whose hydrogens sit on 0, -1, -2 and 7 meets the specification (test of the weakened clause) -/
+example : specCheck exCO
+    { nodes := [(1, { symbol := some "C" }), (2, { symbol := some "O" }), (0, hAttr), (-1, hAttr), (-2, hAttr), (7, hAttr)],
+      adj := [(1, [(2, [(0, .s 2)]), (0, hBond), (-1, hBond), (-2, hBond)]), (2, [(1, [(0, .s 2)]), (7, hBond)]),
+              (0, [(1, hBond)]), (-1, [(1, hBond)]), (-2, [(1, hBond)]), (7, [(2, hBond)])] } = true := by
   decide
 /-- aromatic carbon with one aromatic bond: trunc(4 − 1.5) = 2; over-valent sulfur: none -/
 example : hCount 4 3 = 2 ∧ (hCount 6 14).toNat = 0 ∧ hCount 5 3 = 1 := by decide
